@@ -308,6 +308,7 @@ ExecOp(S, p) ==
            src == st.srcs[i]
        IN IF src.body = "spawn" THEN Fail(S, p, "OperationNotAllowed:spawn")
           ELSE IF src.body = "send" THEN Fail(S, p, "OperationNotAllowed:send")
+          ELSE IF src.body = "fail" THEN Fail(S, p, "InvalidArgument:Division by zero")
           ELSE [S EXCEPT !.proc[p].phase = "verdict",
                          !.proc[p].verdict = FilterAccepts(st.receiving[1][2], src),
                          !.halt = TRUE]
@@ -332,6 +333,7 @@ ExecOp(S, p) ==
                       [t |-> "DeliverAction", to |-> target.p, m |-> m])
     [] op.op = "select" -> ExecSelect(S, p)
     [] op.op = "let"    -> [S EXCEPT !.proc[p].regs[op.dst] = Eval(op.val, P.regs), !.proc[p].pc = @ + 1]
+    [] op.op = "selfpid" -> [S EXCEPT !.proc[p].regs[op.dst] = PidV(p), !.proc[p].pc = @ + 1]
     [] op.op = "mint"   ->         \* builtins/reference.rs: (worker_id << 48) | next_ref
          [S EXCEPT !.proc[p].regs[op.dst] = [k |-> "ref", w |-> S.w, c |-> S.nextRef],
                    !.proc[p].pc = @ + 1, !.nextRef = @ + 1,
